@@ -353,6 +353,47 @@ def mixed_timeouts(v, srv, sb, cfg, out):
         out["note"] = f"mixed timeouts: {type(e).__name__}: {e}"
 
 
+def long_lived(v, srv, sb, cfg, out):
+    """A healthy upload that lasts longer than six of its (1 s) timeouts without ever pausing for one, while another
+    endpoint's request is accepted late in its life: the long transfer must go on."""
+    try:
+        body = N.keyed_content("c12-long", 512 * 17 + 40)
+        s = N._sock(srv.family, timeout=2.0)
+        tr = N.Transfer()
+        s.sendto(N.enc_req(N.WRQ, "long_lived.bin", options=[("timeout", 1)]), srv.addr)
+        k, f, peer = N.recv(s, tr)
+        if k != "OACK":
+            out["long_lived"] = f"not started ({k})"
+            return
+        t0 = time.time()
+        neighbour_done = False
+        failed = None
+        n = len(body) // 512 + 1
+        for blk in range(1, n + 1):
+            s.sendto(N.enc_data(blk, body[(blk - 1) * 512:blk * 512]), peer)
+            k, f, _ = N.recv(s, tr)
+            if k != "ACK" or f["blk"] != blk:
+                failed = (blk, k, f)
+                break
+            if not neighbour_done and time.time() - t0 > 7.0:
+                trb = N.download(srv.addr, "mtB.bin", [("timeout", 1)], family=srv.family)
+                neighbour_done = trb.completed
+            time.sleep(0.5)
+        s.close()
+        time.sleep(0.1)
+        stored = None
+        try:
+            stored = open(os.path.join(sb["rcv"], "long_lived.bin"), "rb").read()
+        except OSError:
+            pass
+        out["long_lived"] = {"seconds": round(time.time() - t0, 1), "neighbour_served": neighbour_done, "completed": failed is None and stored == body}
+        if failed or stored != body:
+            v.violation("C12/long-lived-transfer-cut", f"{cfg}: an upload running for {time.time() - t0:.0f} s (timeout 1 s, a block every 0.5 s) was cut when another endpoint's request was accepted: block {failed and failed[0]} answered {failed and failed[1]} {str(failed and failed[2])[:60]}",
+                        {"engine": "net", "config": cfg, "scenario": "long-lived upload + late neighbour", "failed_at": str(failed)[:120]})
+    except Exception as e:
+        out["long_lived"] = f"harness trouble: {type(e).__name__}: {e}"
+
+
 def run(tier):
     v = C.Verdict("C12", tier, "exploration")
     thorough = tier == "thorough"
@@ -381,7 +422,7 @@ def run(tier):
             # on a server of its own (every other request would touch whatever state the listener shares between transfers)
             mt_sb = ctx.sandbox("c12mt")
             mt_srv = N.Server(tftpd, mt_sb["srv"], single=single, ip=ip, logdir=mt_sb["logs"]).start()
-            mt_thread = threading.Thread(target=mixed_timeouts, args=(v, mt_srv, mt_sb, cfg, mt_out))
+            mt_thread = threading.Thread(target=lambda a=(v, mt_srv, mt_sb, cfg, mt_out): (mixed_timeouts(*a), long_lived(*a)))
             mt_thread.start()
             # exhaustive interleavings, K = 2 (and 3 in thorough)
             plans = [(("down", "down"), 3), (("down", "up"), 3), (("up", "up"), 3),
